@@ -947,6 +947,8 @@ func (e *env) osvCall(sc langScheme, pv, fixedIn string) string {
 	p, a := pkg{version: pv}, advisory{fixed: fixedIn}
 	got := call(sc.m, p, a, nil)
 	e.r.Op("osv "+hexs(pv)+" "+hexs(fixedIn)+" "+osvTable(sc, pv, fixedIn), got, true)
+	// the same call against the string-level models of the scheme (C12's)
+	e.r.Op("osvs "+sc.name+" "+hexs(pv)+" "+hexs(fixedIn), got, true)
 	return got
 }
 
